@@ -30,7 +30,7 @@ META = dict(
                  "decimal rendering of ints is canonical (no leading zeros): digit strings in 0|[1-9][0-9]* are in bijection with non-negative ints"],
     batch_cost=30.0,
 )
-Q = {"note": ["n1", "n0"], "gene": ["g"]}
+Q = {"note": ["n1", "n0"], "gene": ["g"], "pseudo": []}
 
 
 def _tx(ex, strand, cds=None, frames=None, par=None, q=None, guid=None, **kw):
@@ -124,7 +124,7 @@ def guid_functional_fn(kind):
         with untraced():
             strand = PLUS if plus else MINUS
             o = _build(kind, (a, b, c, d), strand, frame, q=Q)
-            same = _build(kind, (a, b, c, d), strand, frame, q={"gene": ["g"], "note": ["n0", "n1"]})
+            same = _build(kind, (a, b, c, d), strand, frame, q={"pseudo": [], "gene": ["g"], "note": ["n0", "n1"]})
             cls = type(o)
             r = cls.from_dict(o.to_dict())
             if not (o.guid == same.guid == r.guid and o.to_dict() == r.to_dict()):
